@@ -8,6 +8,7 @@ from vp import env
 
 PERSISTENT = 'urn:oasis:names:tc:SAML:2.0:nameid-format:persistent'
 TRANSIENT = 'urn:oasis:names:tc:SAML:2.0:nameid-format:transient'
+EMAIL = 'urn:oasis:names:tc:SAML:1.1:nameid-format:emailAddress'
 ATTR = ["name_qualifier", "sp_name_qualifier", "format", "sp_provided_id", "text"]
 
 # subjects: same text; differ from s1 in exactly one field
@@ -19,6 +20,9 @@ SUBJECTS = {
     # a pair whose storage keys would coincide if separators inside field values were not escaped
     's5': ('q', 'r', None, None, 'subject-x'),
     's6': ('q,1=r', None, None, None, 'subject-x'),
+    # a pair of mail-address identifiers that differ in letter case only (identifiers are compared as exact strings)
+    's7': (None, 'urn:sp', EMAIL, None, 'Jane.Doe@example.com'),
+    's8': (None, 'urn:sp', EMAIL, None, 'jane.doe@example.com'),
 }
 SPELL = ('int', 'str', 'struct')      # how the caller spells an expiry: seconds, SAML instant, struct_time
 SOURCES = ('idp1', 'idp2')
@@ -479,8 +483,10 @@ def run(ctx):
     main_subjects = CFG['subjects']
     CFG['subjects'] = ('s5', 's6')
     seen2, tr2, by2, _cap2, _s2, _f2 = bfs(ctx, 3, 10 ** 9)
+    CFG['subjects'] = ('s7', 's8')
+    seen3, tr3, _by3, _cap3, _s3, _f3 = bfs(ctx, 2, 10 ** 9)
     CFG['subjects'] = main_subjects
-    transitions += tr2
+    transitions += tr2 + tr3
     w0, _ = run_history([])
     # other calling styles over every history of length <= 2
     CFG['subjects'] = ('s1', 's2')
